@@ -39,7 +39,7 @@ from .c05 import close
 from . import c17_moments
 
 USES_TRANSLATOR = True
-ANCHOR_PREFIX = ("w2g_", "wfw_", "wb_invcdf", "wb_pdf")
+ANCHOR_PREFIX = ("w2g_", "wfw_", "wb_invcdf", "wb_pdf", "stats_n")
 RULE = ("seeded Weibull parameters (loc in [-20,20], scale log-uniform, shape in [0.6,6]) x n in [2, 1e6] spelled float / int / "
         "numpy scalar x a history of 1-3 re-assignments of loc / scale / shape on the same Weibull object with the same or a new "
         "n asked again (fitted objects too); statsdur spelled float / int / numpy int / numpy float; app.funcs.calculate_stats "
@@ -684,6 +684,9 @@ def summary_clauses(inp, dist=None):
     # affine equivariance (exact map)
     at("TimeSeries.stats of the affine image / the negated signal (fresh objects)")
     a, b = inp["a"], inp["b"]
+    if inp.get("unit"):
+        # the same record in another unit (strain instead of stress, mm instead of km): an exact power-of-two factor, offset in that unit
+        a, b = a * 2.0 ** inp["unit"], b * 2.0 ** inp["unit"]
     kw2 = {} if "filterargs" in kw else kw
     s2 = TimeSeries("s", t, a * x + b).stats(statsdur=statsdur, quantiles=quant, is_minima=ismin, include_sample=True, **kw2)
     if "filterargs" not in kw and np.size(s2["sample"]) == msize and all(np.isfinite(pv)):
@@ -695,7 +698,7 @@ def summary_clauses(inp, dist=None):
                   ("wloc", loc_map(s["wloc"])), ("wscale", a * s["wscale"]), ("gloc", loc_map(s["gloc"])), ("gscale", a * s["gscale"])]
         checks += [(pkey(q), a * s[pkey(q)] + b) for q in qlist]
         bad = [(nm, float(e), float(s2[nm])) for nm, e in checks
-               if not ((np.isinf(e) and s2[nm] == e) or abs(s2[nm] - e) <= tol * (abs(e) + a * abs(s["wscale"]) + 1e-12))]
+               if not ((np.isinf(e) and s2[nm] == e) or abs(s2[nm] - e) <= tol * (abs(e) + a * abs(s["wscale"]) + 1e-12 * min(1.0, a)))]
         if bad:
             fails.append(("summary transforms under x -> a*x+b as location/scale quantities; shape, skewness, kurtosis, tz invariant",
                           {}, [(x0[0], x0[1]) for x0 in bad], [(x0[0], x0[2]) for x0 in bad]))
@@ -789,6 +792,7 @@ def gen_summary(rng, fanout, seed):
                 kwargs=kw, statsdur=rng.choice([10800., 3600., 1000.]), sdtype=rng.choice(SD_TYPES), quantiles=quant,
                 qtype=rng.choice(["tuple", "tuple", "list", "array"]), is_minima=rng.random() < 0.4,
                 a=rng.choice([0.5, 2.0, 4.0]), b=float(rng.randint(-8, 8)), prior=rng.random() < 0.4, fanout=fanout, verif_seed=seed,
+                unit=rng.choice([0, 0, 0, -40, -34, 30]),
                 twtype=rng.choice(["tuple", "tuple", "list", "array"]), ftype=rng.choice(["tuple", "list"]),
                 faults=gen_faults(rng, fanout))
 
@@ -1011,6 +1015,8 @@ def run(chk):
     chk.sample(cases[-1])
     # ---- descriptive half of the summary: Qats.Moments (st.moments / st.momentsq) vs TimeSeries.stats + its clauses as oracles ----
     c17_moments.run_moments(chk, drv)
+    from .gen_ties import run_statsn_tie
+    run_statsn_tie(chk, drv)    # regenerated argument of round() in TimeSeries.stats against the n handed to weibull2gumbel
 
 
 def replay(rp):
